@@ -145,7 +145,7 @@ def check(prop, tier):
                 violations.append((r["unit"], ob))
             else:
                 unknowns.append(f"{r['unit']}::{ob['name']} ({ob.get('reason','')})")
-    for l in lemmas:
+    for l in (lemmas if names else []):  # the lemma library only backs properties that have proof units
         n_obl += 1
         solver_time += l["secs"]
         if l["status"] == "proved":
@@ -202,7 +202,7 @@ def check(prop, tier):
         rc = 3
     if rc == 0 and unknowns:
         rc = 2
-    if rc == 0 and n_obl == 0 and not st_results:
+    if rc == 0 and n_obl == 0 and not any(s.get("cases") for s in st_results):
         errors.append("zero obligations generated")
         rc = 3
     for l in known_lines:
